@@ -24,6 +24,10 @@ class Shape(object):
         self.checks = checks
         self.header = header
         self.line = "lf"
+        # "...@file": writers write into a real file in ASCII encoding (the container refuses rows it cannot encode)
+        self.file_target = fmt.endswith("@file")
+        if self.file_target:
+            fmt = fmt[:-len("@file")]
         self.narrow = fmt == "narrow"  # recording CID that allows digits, dot and blank only (C20: allowed characters are per CID)
         if self.narrow:
             fmt = "delimited"
@@ -44,6 +48,8 @@ class Shape(object):
             rows.append(["D", "Header", str(self.header)])
         if self.fmt == "fixed":
             rows.append(["D", "Line delimiter", self.line])
+        if self.file_target:
+            rows.append(["D", "Encoding", "ascii"])
         if self.recording:
             rows.append(["D", "Allowed characters", "32, 46, 48...57" if self.narrow else "32...125"])  # "~" (126) is never allowed
         length = str(self.width) if self.fmt == "fixed" else ""
@@ -103,6 +109,8 @@ class Shape(object):
         if self.single:
             return [] if row["w"] == "short" else (cells + ["extra"] if row["w"] == "long" else cells)
         rid = ("0.%d" if self.recording else "%d") % number
+        if row["w"] == "enc":
+            rid += "\u0100"  # accepted by the Text field, not representable in the target's encoding
         if row["w"] == "short":
             return cells[:self.nfields - 1] + [rid]
         if row["w"] == "long":
@@ -232,7 +240,26 @@ def item_of(shape, item, messages=None):
             return ["row", -1]
 
 
-def run_read(shape, cid, run, keep=None):
+def create_reader(shape, cid, run):
+    """The Reader object of a run that is created now and iterated later (Park / Resume of the specification)."""
+    from cutplace import validio
+    text = shape.data_text(run["ds"])
+    limit = run["limit"][0] if run["limit"] else None
+    return validio.Reader(cid, io.StringIO(text, newline=""), on_error=run["mode"], validate_until=limit), text
+
+
+def _let_go(keep, release, mine=()):
+    """
+    While a later run is mid-way, the readers, iterators and writers that earlier runs abandoned or never closed are
+    dropped (Python finalises a suspended generator whenever its last reference goes): the
+    bookkeeping of the run in progress belongs to that run.
+    """
+    if release and keep:
+        # (reference counting finalises them at once; a full gc.collect() would walk the whole heap of the worker)
+        keep[:] = [item for item in keep if any(item is own for own in mine)]
+
+
+def run_read(shape, cid, run, keep=None, prepared=None, release=False):
     """Execute one read run of the specification on the real code; returns the projected result record."""
     import cutplace
     from cutplace import validio
@@ -241,6 +268,8 @@ def run_read(shape, cid, run, keep=None):
     source = io.StringIO(text, newline="")
     limit = run["limit"][0] if run["limit"] else None
     mode = run["mode"]
+    if prepared is not None:
+        prepared, text = prepared
     api = run["api"]
     end = run["end"]
     raw = []  # yielded items are kept as they are and looked at only after the iteration has moved on and ended (C06)
@@ -264,6 +293,7 @@ def run_read(shape, cid, run, keep=None):
                 for item in generator:
                     raw.append(item)
                     if len(raw) == 1:
+                        _let_go(keep, release)
                         # another CID of the same shape is loaded while this data set is being read: the bookkeeping of
                         # one Cid object must not depend on other Cid objects of the process
                         shape.new_cid()
@@ -276,15 +306,17 @@ def run_read(shape, cid, run, keep=None):
         if end == "close":
             reader = None
             try:
-                with validio.Reader(cid, source, on_error=mode, validate_until=limit) as reader:
+                with (prepared or validio.Reader(cid, source, on_error=mode, validate_until=limit)) as reader:
                     for item in reader.rows():
                         raw.append(item)
+                        if len(raw) == 1:
+                            _let_go(keep, release)
             except Exception as error:  # noqa
                 exc = project_error(shape, error)
             if reader is not None:
                 acc, rej = reader.accepted_rows_count, reader.rejected_rows_count
         else:
-            reader = validio.Reader(cid, source, on_error=mode, validate_until=limit)
+            reader = prepared or validio.Reader(cid, source, on_error=mode, validate_until=limit)
             if keep is not None:
                 keep.append(reader)  # "never closed": keep it alive so that no destructor interferes
             try:
@@ -297,6 +329,8 @@ def run_read(shape, cid, run, keep=None):
                 else:
                     for item in iterator:
                         raw.append(item)
+                        if len(raw) == 1:
+                            _let_go(keep, release, (reader, iterator))
             except StopIteration:
                 pass
             except Exception as error:  # noqa
@@ -314,10 +348,21 @@ def expected_line(shape, row, number):
     return ",".join(cells) + "\r\n"
 
 
-def run_write(shape, cid, run, keep=None):
+def run_write(shape, cid, run, keep=None, release=False):
     from cutplace import validio
     table = run["ds"]
-    target = io.StringIO(newline="")
+    folder = path = None
+    if shape.file_target:
+        import os
+        folder = core.workdir("target%d" % os.getpid())
+        path = os.path.join(folder, "out.txt")
+        target = path
+
+        def so_far():
+            return None  # the file is looked at once, after the writer was closed
+    else:
+        target = io.StringIO(newline="")
+        so_far = target.getvalue
     out = []
     exc = dict(NO_ERR)
     acc = rej = 0
@@ -329,7 +374,7 @@ def run_write(shape, cid, run, keep=None):
         keep.append(writer)
     for number, row in enumerate(table["rows"], 1):
         cells = shape.cells(row, number)
-        before = target.getvalue()
+        before = so_far()
         try:
             writer.write_row(cells)
             out.append(["row", number])
@@ -340,16 +385,26 @@ def run_write(shape, cid, run, keep=None):
             # the column a writer reports is not part of any listed property (C04 speaks about reading)
             out.append(["err", number, 0, e["cls"], e["by"], e["see"]])
             rej += 1
-            if target.getvalue() != before:
+            if so_far() != before:
                 stream_ok = False
-        if target.getvalue() != expected_stream:
+        if path is None and so_far() != expected_stream:
             stream_ok = False
-    written = target.getvalue()
+        if number == 1:
+            _let_go(keep, release, (writer,))
+    written = so_far()
     if run["end"] == "close":
         try:
             writer.close()
         except Exception as error:  # noqa
             exc = project_error(shape, error)
+    if path is not None:
+        if run["end"] == "close":
+            with open(path, "r", encoding="ascii", newline="") as produced:
+                written = produced.read()
+            stream_ok = written == expected_stream
+        else:
+            written = expected_stream  # never closed: what reached the file so far is the operating system's business
+        core.cleanup(folder)
     calls = _stop_call_log(call_log)
     # C14: the produced output validates again under the same CID and returns the written values (modulo padding)
     readback = []
